@@ -520,6 +520,9 @@ RULES = {
     "R7a": Rule("R7a", "&mut a.data[range] -> &mut a.data.as_mut_slice()[range] (Vec<T>)",
                 "& mut a . data [ $$r ]",
                 "& mut a . data . as_mut_slice ( ) [ $$r ]", guard=_has_range),
+    "R7z": Rule("R7z", "&mut z.data[range] -> &mut z.data.as_mut_slice()[range] (Vec<T>)",
+                "& mut z . data [ $$r ]",
+                "& mut z . data . as_mut_slice ( ) [ $$r ]", guard=_has_range),
     "R7o": Rule("R7o", "&mut other.data[range] -> &mut other.data.as_mut_slice()[range] (Vec<T>)",
                 "& mut other . data [ $$r ]",
                 "& mut other . data . as_mut_slice ( ) [ $$r ]", guard=_has_range),
